@@ -151,7 +151,7 @@ for i in _gi.guard_all_instances():
           "%d opcodes (depth 0: all 68; 1-2: every opcode whose guard reads the stack or memo; 3: MARK-slice and 3-operand opcodes) at stack depth %d "
           "in one query: %s (m <= 300); same assertions as the per-opcode instances" % (len(i["ops"]), i["n"], _ALPH),
           stubs=HEAP_STUBS, funcs=["Generator::can_emit", "Generator::{peek,peek_at,has_mark,is_*_at,is_*_at_mark,count_items_to_mark,is_callable_above_mark}"],
-          cost=20 + 10 * i["n"], thorough_only_for=["C09"])
+          cost=20 + 10 * i["n"], thorough_only_for=["C09"] + (["C01", "C02", "C10", "C04", "C05", "C06", "C11"] if i["n"] >= 3 else []))
     else:
         H(i["name"], "guard.rs", "GUARD(cover)", ["C12"], "quick",
           "cover queries for %d opcodes whose guard needs depth %d: some state of that depth enables each (every cover must be satisfiable)" % (len(i["ops"]), i["n"]),
@@ -173,11 +173,26 @@ for n, ops in [("step_chain_consts", "MARK, EMPTY_TUPLE, NONE, EMPTY_LIST, EMPTY
 for i in _gi.step_instances():
     memo = i["opname"] in ("PUT", "BINPUT", "LONG_BINPUT", "MEMOIZE", "GET", "BINGET", "LONG_BINGET")
     borrow = i["opname"] in ("APPEND", "APPENDS", "SETITEM", "SETITEMS", "ADDITEMS", "BUILD")
+    text = i["opname"] in ("STRING", "UNICODE", "BINUNICODE", "SHORT_BINUNICODE", "BINUNICODE8", "PERSID", "INT", "LONG")
+    md = _gi.MINDEPTH.get(i["opname"], 0)
+    minimal = i["n"] <= max(md, 1)
+    # quick membership per property (each quick check has 900 s on a machine about half as fast as this one):
+    #   C17 (simulation relation): every quick STEP unit;  C01 / C03: minimal depth only, no text opcodes (C01) ...
+    tof = ([] if borrow else ["C09", "C11"])
+    if i["opname"] in ("PUT", "BINPUT", "LONG_BINPUT"):
+        tof += ["C01", "C03", "C17"]
+    else:
+        if text or not minimal:
+            tof += ["C01"]
+        if not minimal or (text and i["opname"] not in ("STRING", "UNICODE")):
+            tof += ["C03"]
+        if not minimal:
+            tof += ["C17"]
     H(i["name"], "step.rs", "STEP", ["C17", "C01", "C03", "C09"] + (["C02"] if memo else []) + (["C11"] if i["n"] <= 1 else []), i["tier"],
       "%s from every state of depth %d in which can_emit holds: %s (m <= 4); well-formed argument bytes (%s)"
       % (i["opname"], i["n"], _ALPH, i["arg"]), stubs=STEP_STUBS,
       funcs=["Generator::process_stack_ops(%s)" % i["opname"], "Generator::{push,pop,peek}", "Stack::{push,pop}"], cost=2 + 2 * i["n"],
-      thorough_only_for=([] if borrow else ["C09", "C11"]) + (["C01", "C03", "C17"] if i["opname"] in ("PUT", "BINPUT", "LONG_BINPUT") else []))
+      thorough_only_for=tof)
 
 # ---------------------------------------------------------------------------------------------------
 # EMIT — emit_and_process per opcode, process_stack_ops replaced by a recorder
@@ -232,7 +247,7 @@ for i in _gi.memget_instances():
       "%s on a memo of %d entries (keys 0..%d), mutator %s at symbolic rate in [0,1], every protocol that has the opcode, fuzzer bytes 0..20, "
       "every iteration order of the table" % (i["opname"], i["n"], i["n"] - 1, _gi.MUTNAME[i["mutk"]]),
       stubs=MEMGET_STUBS, funcs=["Generator::emit_and_process(%s)" % i["opname"], "Generator::mutate_memo_index"], cost=8,
-      thorough_only_for=["C04", "C09", "C17", "C03"] if i["opname"] != "BINGET" else ["C04", "C09"])
+      thorough_only_for=["C04", "C09", "C17", "C03"] if i["opname"] != "BINGET" else ["C04", "C09", "C17"])
     UNITS[-1]["variant"] = "modelmap"
 for n, op, k in [("memget_order_binget_n2", "BINGET", 2), ("memget_order_long_binget_n3", "LONG_BINGET", 3), ("memget_order_get_n2", "GET", 2)]:
     H(n, "memget.rs", "MEMO-GET(order)", ["C07", "C02"], "quick" if op == "BINGET" else "thorough",
